@@ -273,7 +273,7 @@ def aggCell (item : SelItem) (colIdx : Nat) (g : Group) : X Val :=
 
 /-- `aggregateRows` (rows are the projected rows) -/
 def aggregateRows (sl : List DerivedCol) (groupBy : List ColRef) (rows : List Row) : X (List Row) :=
-  if !hasAggr sl then .ok rows
+  if !hasAggr sl && groupBy.isEmpty then .ok rows
   else if groupBy.isEmpty && rows.isEmpty then
     (do
       let r ← mapX (fun (d : DerivedCol) => match d.item with
